@@ -6,9 +6,13 @@ SPEC = dict(
     rule="reply trees: well-shaped replies of every helper in the RESP2 and RESP3 shapes (scalars, slices, string/int maps, ZSCORE(S), "
          "XRANGE, XREAD, SCAN, LMPOP, ZMPOP, FT.SEARCH with/without scores and attributes, FT.AGGREGATE with/without cursor, GEOSEARCH "
          "with every WITH* combination, generic maps), the same mutated (child dropped / duplicated, node retagged, aggregate emptied, "
-         "scalar for aggregate and back, truncation, attributes attached), random trees of depth <= 3, RedisResult values holding a "
+         "scalar for aggregate and back, truncation, attributes attached), exhaustive deformation sweeps (about 15% of the cases: a small "
+         "well-shaped seed reply of any helper and EVERY single systematic edit of it — every prefix of every aggregate, removal and "
+         "duplication of every element, every node replaced by each of 22 scalar / aggregate kinds incl. empty string, empty array, nil, "
+         "every node retagged to every other type — all through all accessors and the direct oracles, about 200 deformations per seed, "
+         "4 of them per seed also through the model), random trees of depth <= 3, RedisResult values holding a "
          "non-redis error, error texts for the classifiers (every keyword x 0..3 fields, IPv4/IPv6 address forms) and fixIPv6HostPort; "
-         "all 38 accessors run on every tree; the corpus holds the 9 witnesses of the repaired panics; a tree case is non-trivial "
+         "all 38 accessors run on every tree; the corpus holds the witnesses of the repaired panics and of the seeded change C15-1; a tree case is non-trivial "
          "when the tree has more than one node; distinct by full input",
     trusted=["strconv.ParseFloat, float64(int64), json.Unmarshal: parameters of the model, the observer passes "
              "their results on every string / integer of the tree (tables checked for coverage, fail closed); theorems hold for every behaviour",
